@@ -68,6 +68,9 @@ type CommitRec struct {
 	// maintenance runs up to two internal transactions inside one Open call)
 	AltTxIDs []uint64
 	State    *MState // committed model state after this commit (if OK)
+	// MaybeState (fault runs): the commit failed, but only sync calls failed: its state may
+	// nevertheless have become durable (TxID is the header txid it would carry)
+	MaybeState *MState
 }
 
 type txPage struct {
@@ -760,9 +763,6 @@ func (r *Runner) RunTxHooked(idx int, tx *Tx, afterBegin, beforeEnd func()) (v *
 }
 
 func (r *Runner) runTx(idx int, tx *Tx) *Violation {
-	if tx.Stall {
-		r.stall()
-	}
 	opts := txfile.TxOptions{
 		WALLimit:               tx.WALLimit,
 		MetaAreaGrowPercentage: tx.GrowPct,
@@ -778,7 +778,19 @@ func (r *Runner) runTx(idx int, tx *Tx) *Violation {
 	}
 	ftx, err := r.F.BeginWith(opts)
 	if err != nil {
+		if r.O.Faults && r.Disk.Injected() > r.txInjected0 {
+			// an injected I/O failure hit an I/O call made by Begin itself (restoring the file header
+			// after a failed commit): the affected operation returned an error, nothing else happened
+			r.count("begin-failed-by-fault")
+			r.record(Obs{Op: -1, Kind: "begin", OK: false, Err: ErrKindName(err)})
+			return nil
+		}
 		return violationf("begin", idx, "Begin failed: %v", err)
+	}
+	if tx.Stall {
+		// park the background writer from now on (after Begin: Begin itself may have to
+		// wait for the writer when it restores the file header after a failed commit)
+		r.stall()
 	}
 	r.openTx = ftx
 	if r.hookAfterBegin != nil {
@@ -905,7 +917,12 @@ func (t *txRun) commit() *Violation {
 					// only syncs failed: the commit may have become durable (final sync lost)
 					r.Maybe = append(r.Maybe, t.committedView())
 					r.count("commit-failed-sync-only")
+					rec.MaybeState = t.committedView()
+					rec.TxID = r.LastTxID + 1
 				}
+			}
+			if r.O.TrackCommits {
+				r.Commits = append(r.Commits, rec)
 			}
 			t.aborted("commit-failed")
 			r.record(Obs{Op: -1, Kind: "commit", OK: false, Err: ErrKindName(err)})
